@@ -91,6 +91,7 @@ def run(ctx):
         cases = [relgen.make_case(rng, kinds=ORDER_KINDS, max_tr=7, **prof) for _ in range(n)]
         res = relcheck.run_cases(cases, "sql.sqlite")
         for c, r in zip(cases, res):
+            orig = c
             seq = r["status"] == "ok" and r.get("mode") == "seq"
             ctx.case((c.prql, str(c.db)), nontrivial=seq and len(r.get("rows") or []) >= 2)
             ctx.count(f"order:{r['status']}" + (":" + r.get("mode", "") if r["status"] == "ok" else ""))
@@ -111,7 +112,8 @@ def run(ctx):
             ctx.oracle_failure(fid, f"{r['status']}: {r['detail']}",
                                {"prql": c.prql, "target": "sql.sqlite", "db": c.db, "schema": c.schema_list, "sql": r.get("sql"),
                                 "observed_rows": r.get("rows"), "expected_rows": r.get("model_rows"), "order_flags": r.get("flags"),
-                                "status": r["status"], "detail": r["detail"], "class": fid})
+                                "status": r["status"], "detail": r["detail"], "class": fid},
+                               det_key=None if label == "seed" else (orig.prql, orig.db))
     ctx.coverage_extra["sequence_comparisons"] = nseq
     ctx.obligation("oracle: SQLite row sequences equal the reference semantics wherever a total sort is in effect", not [v for v in ctx.violations if v["kind"] == "failing-input"],
                    f"{nseq} sequence comparisons")
